@@ -15,7 +15,10 @@ Template directives (lines whose first non-blank characters are `//@`):
   //@  execconst <ensures expr>      (const items) emit as `exec const N: T ensures <expr> { E }` (@NAME = the const's name)
   //@  rename <NAME> / valueof <NAME> (const items) emit the const under another name / with its value replaced by NAME
   //@  ghoststmt <n> => <ghost text>   proof-only text inserted after the n-th (0-based) top-level statement of the body
+  //@  ghoststmt <n> of /regex/ => <ghost text>   same, counting only the top-level statements that match regex
   //@  ghostafter /regex/ => <ghost text>   proof-only text inserted after the unique match of regex in the body
+  //@  capture NAME /regex/          NAME := group 1 of the unique match in the body; `$NAME` in the ghost text / loop
+  //@                                invariants / rewrites / prologue of this item is replaced by it
   //@  inject <text>                 (trait/impl/struct) text inserted right after the opening brace
   //@  keepattrs <regex>             keep leading attributes matching regex (default: only #[repr..])
   //@  spec:                         following lines are spliced between signature and body
@@ -76,7 +79,80 @@ RULES = {
 }
 
 
+def chain_start(text, pos):
+    """Start offset of the postfix chain (`a.b::<T>(..).c[..]`) that ends right before pos."""
+    i = pos
+    while True:
+        j = i
+        while j > 0 and text[j - 1].isspace():
+            j -= 1
+        if j == 0:
+            return i
+        ch = text[j - 1]
+        if ch in ')]':
+            depth, k = 0, j - 1
+            while k >= 0:
+                if text[k] in ')]':
+                    depth += 1
+                elif text[k] in '([':
+                    depth -= 1
+                    if depth == 0:
+                        break
+                k -= 1
+            if k < 0:
+                return i
+            i = k
+            continue
+        if ch == '>' and '::<' in text[:j]:
+            depth, k = 0, j - 1
+            while k >= 0:
+                if text[k] == '>':
+                    depth += 1
+                elif text[k] == '<':
+                    depth -= 1
+                    if depth == 0:
+                        break
+                k -= 1
+            if k < 2 or text[k - 2:k] != '::':
+                return i
+            i = k - 2
+            continue
+        if ch.isalnum() or ch == '_':
+            k = j - 1
+            while k > 0 and (text[k - 1].isalnum() or text[k - 1] == '_'):
+                k -= 1
+            i = k
+            continue
+        if ch == '.':
+            i = j - 1
+            continue
+        if ch == ':' and j >= 2 and text[j - 2] == ':':
+            i = j - 2
+            continue
+        return i
+
+
+def rule_r8(text, report):
+    """R8: `<chain>.cast::<T>().as_ref().unwrap()` (Option<&T> from a raw pointer, unwrapped)
+    -> `ptr_as_ref_unwrap(<chain>.cast::<T>())`; the chain is found syntactically, whatever
+    locals it is built from."""
+    n = 0
+    while True:
+        m = re.search(r'(\.cast::<[^<>;]+>\(\))\s*\.as_ref\(\)\s*\.unwrap\(\)', text)
+        if not m:
+            break
+        st = chain_start(text, m.start())
+        text = text[:st] + 'ptr_as_ref_unwrap(' + text[st:m.end(1)] + ')' + text[m.end():]
+        n += 1
+    if n:
+        report.setdefault('rules', {})['R8: <ptr chain>.cast::<T>().as_ref().unwrap() -> ptr_as_ref_unwrap(<ptr chain>.cast::<T>())'] = n
+    return text
+
+
 def apply_rules(text, rules, report):
+    if 'R8' in rules:
+        text = rule_r8(text, report)
+        rules = [r for r in rules if r != 'R8']
     for r in rules:
         if r not in RULES:
             raise AssembleError(f'unknown rule {r}')
@@ -283,6 +359,11 @@ class Assembler:
                 opts['sigrewrites'].append(parse_rewrite(b[11:].strip()))
             elif b.startswith('prologue '):
                 opts['prologue'].append(raw[raw.index('prologue ') + 9:])
+            elif b.startswith('capture '):
+                m = re.match(r'(\w+)\s+/(.*)/\s*$', b[8:].strip())
+                if not m:
+                    raise AssembleError(f'bad capture directive: {b}')
+                opts.setdefault('capture', []).append((m.group(1), m.group(2)))
             elif b.startswith('rename '):
                 opts['rename'] = b[7:].strip()
             elif b.startswith('valueof '):
@@ -290,10 +371,10 @@ class Assembler:
             elif b.startswith('execconst '):
                 opts['execconst'] = b[10:].strip()
             elif b.startswith('ghoststmt '):
-                m = re.match(r'(\d+)\s*=>\s*(.*)$', b[10:].strip())
+                m = re.match(r'(\d+)\s*(?:of\s*/(.*?)/\s*)?=>\s*(.*)$', b[10:].strip())
                 if not m:
                     raise AssembleError(f'bad ghoststmt directive: {b}')
-                opts.setdefault('ghoststmt', []).append((int(m.group(1)), m.group(2)))
+                opts.setdefault('ghoststmt', []).append((int(m.group(1)), m.group(3), m.group(2)))
             elif b.startswith('ghostafter '):
                 m = re.match(r'/(.*)/\s*=>\s*(.*)$', b[11:].strip())
                 if not m:
@@ -368,6 +449,29 @@ class Assembler:
         for rw in opts['sigrewrites']:
             sig = do_rewrite(sig, rw, f'signature of {rep["item"]}', rep)
         body = fp.body
+        if opts.get('capture'):
+            # `capture NAME /regex with one group/`: the name of a local of the real body (so that
+            # ghost text does not depend on what the local happens to be called); `$NAME` in the
+            # ghost text, loop invariants, rewrites and prologue of this item stands for it
+            caps = {}
+            mb_ = mask_source(body)
+            for nm, rx in opts['capture']:
+                ms = list(re.finditer(rx, mb_))
+                if len(ms) != 1:
+                    raise AssembleError(f'{rep["item"]}: capture {nm} /{rx}/ matched {len(ms)} times, expected 1 (anchor lost)')
+                caps[nm] = ms[0].group(1)
+            rep['captures'] = caps
+
+            def sub_(t):
+                for nm, v in caps.items():
+                    t = t.replace('$' + nm, v)
+                return t
+            opts = dict(opts)
+            opts['ghoststmt'] = [(n_, sub_(g_), f_) for n_, g_, f_ in opts.get('ghoststmt', [])]
+            opts['ghostafter'] = [(sub_(r_), sub_(g_)) for r_, g_ in opts.get('ghostafter', [])]
+            opts['loops'] = {k_: [sub_(l_) for l_ in v_] for k_, v_ in opts['loops'].items()}
+            opts['rewrites'] = [(sub_(a_), sub_(b_), c_) for a_, b_, c_ in opts['rewrites']]
+            opts['prologue'] = [sub_(l_) for l_ in opts['prologue']]
         if opts['dropbody']:
             body = ''
         if opts.get('ghoststmt'):
@@ -376,7 +480,17 @@ class Assembler:
             # lose the anchor (that would be 'undecided') but make the spliced assertion fail.
             stmts = split_statements(fp.body)
             ins = []
-            for nth, ghost in opts['ghoststmt']:
+            for nth, ghost, filt in opts['ghoststmt']:
+                if filt:
+                    # ordinal among the top-level statements matching /filt/ only (e.g. the push
+                    # statements of build()): moving an unrelated `let` does not shift the anchors
+                    _mb = mask_source(fp.body)
+                    sel = [st for st in stmts if re.search(filt, _mb[st[0]:st[1]])]
+                    if nth < len(sel):
+                        ins.append((sel[nth][1], ghost))
+                    else:
+                        ins.append((stmts[-1][0] if stmts else 1, ghost + '\n        '))
+                    continue
                 if nth < len(stmts) - 1:
                     pos = stmts[nth][1]
                 else:   # fewer statements than expected: place before the trailing expression / at the end
